@@ -40,6 +40,30 @@ pub struct ADoc {
     pub frags: Vec<AFrag>,
 }
 
+thread_local! {
+    /// (mode, counter): mode > 0 = `render_decorated` is running
+    static DECORATE: std::cell::Cell<(u32, u32)> = const { std::cell::Cell::new((0, 0)) };
+}
+
+/// ` @include(if: true)` / ` @skip(if: false)` on every third selection while `render_decorated` runs: directives that
+/// leave the executed selection as it is (so responses, types and validity are those of the undecorated document)
+fn decoration() -> &'static str {
+    DECORATE.with(|d| {
+        let (mode, n) = d.get();
+        if mode == 0 {
+            return "";
+        }
+        d.set((mode, n + 1));
+        if (n + mode) % 3 != 0 {
+            ""
+        } else if (n / 3) % 2 == 0 {
+            " @include(if: true)"
+        } else {
+            " @skip(if: false)"
+        }
+    })
+}
+
 fn render_sels(sels: &[ASel], indent: usize, out: &mut String) {
     let pad = "  ".repeat(indent);
     for s in sels {
@@ -47,20 +71,21 @@ fn render_sels(sels: &[ASel], indent: usize, out: &mut String) {
             ASel::Typename => out.push_str(&format!("{}__typename\n", pad)),
             ASel::Field { alias, name, sub } => {
                 let a = alias.as_ref().map(|a| format!("{}: ", a)).unwrap_or_default();
+                let d = decoration();
                 if sub.is_empty() {
-                    out.push_str(&format!("{}{}{}\n", pad, a, name));
+                    out.push_str(&format!("{}{}{}{}\n", pad, a, name, d));
                 } else {
-                    out.push_str(&format!("{}{}{} {{\n", pad, a, name));
+                    out.push_str(&format!("{}{}{}{} {{\n", pad, a, name, d));
                     render_sels(sub, indent + 1, out);
                     out.push_str(&format!("{}}}\n", pad));
                 }
             }
             ASel::Inline { on, sub } => {
-                out.push_str(&format!("{}... on {} {{\n", pad, on));
+                out.push_str(&format!("{}... on {}{} {{\n", pad, on, decoration()));
                 render_sels(sub, indent + 1, out);
                 out.push_str(&format!("{}}}\n", pad));
             }
-            ASel::Spread { name } => out.push_str(&format!("{}...{}\n", pad, name)),
+            ASel::Spread { name } => out.push_str(&format!("{}...{}{}\n", pad, name, decoration())),
         }
     }
 }
@@ -120,6 +145,14 @@ impl ADoc {
             walk(&op.sels, &self.frags, &mut reachable);
         }
         self.frags.retain(|f| reachable.contains(&f.name));
+    }
+
+    /// `render` with `@include(if: true)` / `@skip(if: false)` on every third selection (phase `mode` in 1..=3)
+    pub fn render_decorated(&self, mode: u32) -> String {
+        DECORATE.with(|d| d.set((mode.max(1), 0)));
+        let s = self.render();
+        DECORATE.with(|d| d.set((0, 0)));
+        s
     }
 
     pub fn render(&self) -> String {
@@ -311,6 +344,21 @@ impl<'a> OpGen<'a> {
             return None;
         }
         let mut alias = if self.k.aliases && rng.chance(15) { Some(self.fresh_alias()) } else { None };
+        if self.k.aliases && alias.is_none() && rng.chance(8) {
+            // an alias that differs from the field's name only in case style (`userId: user_id`, `Score: score`): the
+            // alias, not the schema name, is the response key. (Not when a sibling key has the same snake-cased form:
+            // that is the known finding C02-snake-collision.)
+            use heck::{ToLowerCamelCase, ToSnakeCase, ToUpperCamelCase};
+            let variants = [f.name.to_snake_case(), f.name.to_lower_camel_case(), f.name.to_upper_camel_case(), f.name.to_uppercase()];
+            let cand: Vec<&String> = variants.iter().filter(|v| **v != f.name && !v.is_empty() && v.chars().next().map(|c| c.is_ascii_alphabetic() || c == '_').unwrap_or(false)).collect();
+            if !cand.is_empty() {
+                let a = (*rng.pick(&cand)).clone();
+                let snake = a.to_snake_case();
+                if !used.iter().any(|u| u.to_snake_case() == snake) && !super::schema::ALL_KEYWORDS.contains(&a.as_str()) {
+                    alias = Some(a);
+                }
+            }
+        }
         let mut key = alias.clone().unwrap_or_else(|| f.name.clone());
         if used.contains(&key) {
             if self.k.allow_overlap && rng.chance(50) {
@@ -389,7 +437,16 @@ impl<'a> OpGen<'a> {
                 _ => {}
             }
         }
-        let names = ["id", "first", "filterBy", "snake_var", "Type", "in", "msg", "x2"];
+        // (two more names per operation from the whole keyword list)
+        let kw1 = *rng.pick(&super::schema::ALL_KEYWORDS);
+        let kw2 = *rng.pick(&super::schema::ALL_KEYWORDS);
+        let mut names = vec!["id", "first", "filterBy", "snake_var", "Type", "in", "msg", "x2"];
+        for kw in [kw1, kw2] {
+            // (`Self` and `self` would collide after snake-casing; `type` is spelled `Type` above)
+            if !names.iter().any(|n| n.eq_ignore_ascii_case(kw)) {
+                names.push(kw);
+            }
+        }
         let n = rng.below(4);
         let mut idx: Vec<usize> = (0..names.len()).collect();
         rng.shuffle(&mut idx);
